@@ -101,6 +101,11 @@ class SGen:
             return ["basic", self.r.choice(["eq", "ne", "gt", "gte", "lt", "lte"]), self.num(srcs, max(d - 1, 0), ub),
                     self.num(srcs, max(d - 1, 0), ub), None]
         if r < 0.65:
+            if self.r.random() < 0.2:
+                # a negated compound as operand of AND / OR: a AND NOT (b OR c)
+                inner = ["not", ["cplx", self.r.choice(["and", "or"]), self.crit(srcs, 0, ub), self.crit(srcs, 0, ub), None], None]
+                other = self.crit(srcs, d - 1, ub)
+                return ["cplx", self.r.choice(["and", "or"])] + ([other, inner] if self.r.random() < 0.5 else [inner, other]) + [None]
             return ["cplx", self.r.choice(["and", "or"]), self.crit(srcs, d - 1, ub), self.crit(srcs, d - 1, ub), None]
         if r < 0.73:
             return ["not", self.crit(srcs, d - 1, ub), None]
@@ -217,6 +222,10 @@ class SGen:
             f = self.field(srcs, "int", ub) or self.int_lit()
             return ["cmp", self.r.choice(["eq", "gt", "lte", "ne"]), f, self.scalar_sub(depth + 1, srcs)]
         if r < 0.3 and d > 0:
+            if self.r.random() < 0.2:
+                # the same at item level (the operands may hold sub-queries): x AND NOT (y OR z)
+                inner = ["not", ["cplx", self.r.choice(["and", "or"]), self.citem(srcs, depth, ub, 0), self.citem(srcs, depth, ub, 0)]]
+                return ["cplx", self.r.choice(["and", "or"]), self.citem(srcs, depth, ub, d - 1), inner]
             return ["cplx", self.r.choice(["and", "or"]), self.citem(srcs, depth, ub, d - 1), self.citem(srcs, depth, ub, d - 1)]
         if r < 0.36 and d > 0:
             return ["not", self.citem(srcs, depth, ub, d - 1)]
@@ -237,8 +246,8 @@ class SGen:
                 # total order up to identical rows: every column of the single table
                 obs = [[["field", c, ["#0", [], None], None], self.r.choice([None, "asc", "desc"])] for c in COLS]
                 if fname != "ROW_NUMBER":
-                    frame = ["rows", self.r.choice(["unbounded_preceding", ["preceding", 1], ["preceding", 2]]),
-                             self.r.choice(["current", ["following", 1], "unbounded_following"])]
+                    frame = ["rows", self.r.choice(["unbounded_preceding", ["preceding", 0], ["preceding", 1], ["preceding", 2], "current"]),
+                             self.r.choice(["current", ["following", 0], ["following", 1], ["following", 2], "unbounded_following"])]
         else:
             obs = [[self.field(srcs, "int", False), self.r.choice([None, "asc", "desc"])] for _ in range(self.r.choice([0, 1, 1, 2]))]
             if args and self.r.random() < 0.3:
@@ -265,7 +274,7 @@ class SGen:
                 srcs.append(Src(["a", name], wcols))
                 q["from"] = [s.spec for s in srcs]
                 nfrom += 1
-        njoin = self.r.choice([0, 0, 1, 1, 2] if not small else [0, 0, 0, 1])
+        njoin = self.r.choice([0, 0, 1, 1, 2, 2, 3] if not small else [0, 0, 0, 1])
         for jn in range(njoin):
             if withs and withs[0][0] not in [x.spec[1] for x in srcs if x.spec[0] == "a"] and self.r.random() < 0.4:
                 src = Src(["a", withs[0][0]], wcols)
@@ -282,6 +291,12 @@ class SGen:
                 li = self.r.randrange(len(srcs))
                 lc = self.r.choice([c for c, ty in srcs[li].cols.items() if ty == "int"] or [None])
                 rc = self.r.choice([c for c, ty in src.cols.items() if ty == "int"] or [None])
+                if self.r.random() < 0.3:
+                    # the shape Joiner.on_field("c") builds: <first FROM item>.c = <joined item>.c
+                    both = [c for c, ty in srcs[0].cols.items() if ty == "int" and src.cols.get(c) == "int"]
+                    if both:
+                        li, lc = 0, self.r.choice(both)
+                        rc = lc
                 if lc is None or rc is None:
                     cond = ["cross"]
                 else:
@@ -362,6 +377,10 @@ class SGen:
                 sels.append(["t", name_item(a, typ, named)])
             # (the alias nobody selected is chosen now that every output name of the statement is known)
             gitems = [["t", self._unselected_alias(g[1], set(outcols))] if len(g) == 3 else g for g in gitems]
+            # positional keys: GROUP BY 2 for the group key selected as second item (groupby(2) / ValueWrapper(2))
+            for n, g in enumerate(gitems):
+                if g in sels and self.r.random() < 0.15:
+                    gitems[n] = ["t", ["vali", sels.index(g) + 1, None]]
             q["groupby"] = gitems
             if self.r.random() < 0.5:
                 a = self.agg(srcs, ub)
@@ -453,7 +472,9 @@ class SGen:
 
     def _ob_item(self, sel_item, sels):
         """ORDER BY by a select item: the very same (aliased) term, so that pypika substitutes the alias, or the bare
-        expression, or the expression under an alias that is not selected (which must be ignored)"""
+        expression, or the expression under an alias that is not selected (which must be ignored), or its position"""
+        if self.r.random() < 0.12:
+            return ["t", ["vali", sels.index(sel_item) + 1, None]]
         t = sel_item[1]
         if t[0] in ("field", "arith", "func", "case", "win"):
             r = self.r.random()
